@@ -172,15 +172,16 @@ func (e *verifLazyExit) DestinationUUID() flows.NodeUUID {
 	return e.dest
 }
 
-func verifNodeUUID(flow, n int) flows.NodeUUID {
-	return flows.NodeUUID("f" + string(rune('0'+flow)) + "n" + string(rune('0'+n)))
+// identifiers are well-formed version 4 UUIDs (sessions read back from JSON
+// are validated natively)
+func verifID(kind byte, a, b, c int) string {
+	return string([]byte{kind}) + "0000000-0000-4000-8000-000000000" + string([]byte{byte('0' + a), byte('0' + b), byte('0' + c)})
 }
+func verifNodeUUID(flow, n int) flows.NodeUUID { return flows.NodeUUID(verifID('a', flow, n, 0)) }
 func verifExitUUID(flow, n, e int) flows.ExitUUID {
-	return flows.ExitUUID("f" + string(rune('0'+flow)) + "n" + string(rune('0'+n)) + "e" + string(rune('0'+e)))
+	return flows.ExitUUID(verifID('e', flow, n, e))
 }
-func verifFlowUUID(flow int) assets.FlowUUID {
-	return assets.FlowUUID("flow" + string(rune('0'+flow)))
-}
+func verifFlowUUID(flow int) assets.FlowUUID { return assets.FlowUUID(verifID('f', flow, 0, 0)) }
 
 // verifBuildNode builds one node from its spec with the real constructors.
 func verifBuildNode(flow, n int, sp verifNodeSpec) flows.Node {
